@@ -694,9 +694,6 @@ func (g *sgen) object(d int, oo objOpts) (*jsonv.Value, info) {
 
 	o := typed("object")
 	in := info{class: cObject, distinct: 6, height: height}
-	if height == 0 {
-		in.height = 1
-	}
 	var required []string
 	po := &ob{}
 	for _, p := range props {
@@ -750,6 +747,9 @@ func (g *sgen) object(d int, oo objOpts) (*jsonv.Value, info) {
 	case 3:
 		as, _ := g.scalar(false)
 		o.set("additionalProperties", as)
+		if in.height < 1 {
+			in.height = 1
+		}
 	}
 	in.open = apMode == 0 && !undeclared
 
@@ -838,7 +838,14 @@ func (g *sgen) asComponent(word string, s *jsonv.Value, in info) *jsonv.Value {
 
 // recursive builds a recursive component family with a base case.
 func (g *sgen) recursive(d int) (*jsonv.Value, info) {
-	kinds := []string{"list", "tree", "mutual"}
+	// nesting each family adds below the place it is used: list 1, expr 1, tree 2, mutual 3
+	kinds := []string{"list"}
+	if d+2 <= g.opt.Depth {
+		kinds = append(kinds, "tree")
+	}
+	if d+3 <= g.opt.Depth {
+		kinds = append(kinds, "mutual")
+	}
 	if g.opt.has(FOneOf) {
 		kinds = append(kinds, "expr")
 	}
@@ -851,7 +858,7 @@ func (g *sgen) recursive(d int) (*jsonv.Value, info) {
 		next := ns.take(g.rng, []string{"next", "tail", "rest"})
 		s, in := g.object(g.opt.Depth, objOpts{names: ns, closed: closed, open: !closed, maxProps: 2, noNullable: true,
 			fixed: []fixedProp{{ns.take(g.rng, propWords), v, g.rng.Chance(70)}, {next, Ref(name), false}}})
-		in.height = 2
+		in.height = 1
 		in.open = false
 		g.define(name, s, in)
 		return Ref(name), in
@@ -882,7 +889,7 @@ func (g *sgen) recursive(d int) (*jsonv.Value, info) {
 		}
 		sb, ib := g.object(g.opt.Depth, objOpts{names: nsB, closed: closed, open: !closed, maxProps: 1, noNullable: true,
 			fixed: []fixedProp{{nsB.take(g.rng, propWords), vb, g.rng.Bool()}, {nsB.take(g.rng, []string{"pings", "backs", "links"}), arr.val(), g.rng.Bool()}}})
-		ia.height, ib.height = 2, 2
+		ia.height, ib.height = 3, 3
 		ia.open, ib.open = false, false
 		g.define(a, sa, ia)
 		g.define(b, sb, ib)
@@ -897,7 +904,7 @@ func (g *sgen) recursive(d int) (*jsonv.Value, info) {
 		fixed: []fixedProp{{ns.take(g.rng, []string{"leaf", "lit", "atom"}), lv, true}}})
 	sn, inn := g.object(g.opt.Depth, objOpts{names: ns, closed: true, maxProps: 1, noNullable: true,
 		fixed: []fixedProp{{ns.take(g.rng, []string{"op", "fn", "node_tag"}), nv, true}, {ns.take(g.rng, []string{"left", "lhs", "arg"}), Ref(e), g.rng.Bool()}, {ns.take(g.rng, []string{"right", "rhs", "arg2"}), Ref(e), false}}})
-	il.height, inn.height = 1, 2
+	il.height, inn.height = 1, 1
 	g.define(leaf, sl, il)
 	g.define(node, sn, inn)
 	vars := []*jsonv.Value{Ref(leaf), Ref(node)}
@@ -906,7 +913,7 @@ func (g *sgen) recursive(d int) (*jsonv.Value, info) {
 	}
 	kw := "oneOf"
 	se := (&ob{}).set(kw, jsonv.NewArray(vars...)).val()
-	ie := info{class: cSum, distinct: 6, height: 2}
+	ie := info{class: cSum, distinct: 6, height: 1}
 	g.define(e, se, ie)
 	return Ref(e), ie
 }
